@@ -1,5 +1,7 @@
 import CollectionsC.Proofs.Deque
 import CollectionsC.Proofs.DequeBits
+import CollectionsC.Proofs.DequeRemoveAt
+import CollectionsC.Proofs.DequeAddAt
 import CollectionsC.Generated.FuncsDeque
 /-! # C05 — translation validation of the deque model
 
@@ -8,7 +10,7 @@ import CollectionsC.Generated.FuncsDeque
 `#ifdef ARCH_64` block of `upper_pow_two` resolved with the build's macro set, and `cc_deque_conf_init`,
 `cc_deque_new_conf`, `cc_deque_new`, `cc_deque_destroy`, `cc_deque_add_first`, `cc_deque_add_last`,
 `cc_deque_remove_first`, `cc_deque_remove_last`, `cc_deque_get_at`, `cc_deque_get_first`, `cc_deque_get_last`,
-`cc_deque_size`, `cc_deque_capacity` and the static `upper_pow_two`, `copy_buffer`, `expand_capacity`,
+`cc_deque_size`, `cc_deque_capacity`, `cc_deque_add_at`, `cc_deque_remove_at` and the static `upper_pow_two`, `copy_buffer`, `expand_capacity`,
 statement by statement.  The bit operations on `size_t` are translated as the `Nat` operations `&&&`, `|||`,
 `>>>` (these cannot leave the 64-bit range) and `wshl` (left shift modulo `2^64`); subtraction and addition wrap
 (`wsub`, `wadd`), so the index masks are literally `(first - 1) & (capacity - 1)` in 64-bit arithmetic.
@@ -19,8 +21,10 @@ runs no loop), the translated function is **fault-free** and returns what the ha
 `Model/Deque.lean` returns — same status code, same out-value, same resulting state (`ofDeque`), same ledger; the
 model's `decMask`/`%` index arithmetic is what the masks compute because the capacity is a power of two.
 Block identity as in C01Gen: the theorems about functions that allocate or release say which ids the resulting
-object owns and which were released.  Not translated: `add_at`/`remove_at`, the copies, filters, iterators and
-the remaining operations — the differential correspondence of C05 covers them. -/
+object owns and which were released.  `cc_deque_add_at` / `cc_deque_remove_at` (four `memmove` shapes each) agree for **every** index: the front-half
+branch of `add_at` is the known finding D3, and the hand-written model transcribes the C text there, so the
+agreement covers it as it is.  Not translated: the copies, filters, iterators and the remaining operations — the
+differential correspondence of C05 covers them. -/
 /- the proofs name the `%` variants of the mask facts too (see `mod_dec`); on the current text those simp arguments are unused -/
 set_option linter.unusedSimpArgs false
 namespace CC.Properties.C05Gen
@@ -446,6 +450,292 @@ theorem deque_add_last_agrees (d : Deque) (x : Nat) (m : Mem) (sid bid nid fuel 
     simp only [hfull, if_false, false_and, Bool.false_eq_true]
     exact add_last_tail d x m nid sid bid [] h (by simp [GenF.isDead]) (by simp [GenF.isDead])
 
+/-! ## `remove_at` -/
+
+theorem mask_mod1 (d : Deque) (h : d.Inv) (x : Nat) : x &&& (d.cap - 1) = x % d.cap := by
+  have hp := Deque.Inv.cap_pos h
+  rw [← mask_mod d h, wsub_le _ _ hp]
+
+theorem mask_dec1 (d : Deque) (h : d.Inv) (x : Nat) (hx : x < 2 ^ 64) :
+    (GenF.wsub x 1) &&& (d.cap - 1) = decMask x d.cap := by
+  have hp := Deque.Inv.cap_pos h
+  rw [← mask_dec d h x hx, wsub_le _ _ hp]
+
+set_option maxHeartbeats 1000000 in
+/-- `cc_deque_remove_at`, for every index (the four `memmove` shapes, and the two forwarding cases) -/
+theorem deque_remove_at_agrees (d : Deque) (i : Nat) (outNN : Bool) (m : Mem) (sid bid : Nat) (h : d.Inv) :
+    GenF.cc_deque_remove_at (ofDeque d sid bid) i outNN =
+      ((d.removeAt i m).1.code, (if outNN then (d.removeAt i m).2.1 else none),
+       ofDeque (d.removeAt i m).2.2.1 sid bid, false) ∧ (d.removeAt i m).2.2.2 = m := by
+  refine ⟨?_, (Deque.removeAt_spec d i m h).2.2.2.2.1⟩
+  have hI := h
+  have hp := Deque.Inv.cap_pos h
+  have hll := Deque.Inv.last_lt h
+  obtain ⟨hpw, hmax, hl, hf, hla, hsz⟩ := h
+  have h31 : d.cap ≤ 2147483648 := by simpa [Gen.MAX_POW_TWO] using hmax
+  unfold GenF.cc_deque_remove_at Deque.removeAt
+  by_cases c0 : i ≥ d.size
+  · simp [c0, codes]
+  have hc : GenF.wsub d.cap 1 = d.cap - 1 := wsub_le _ _ hp
+  have hwa : GenF.wadd d.first i = d.first + i := wadd_small _ _ (by simp only [Gen.MAX_POW_TWO]; omega)
+  have hpl : (d.first + i) % d.cap < d.cap := Nat.mod_lt _ hp
+  have c5 := mod_cases (x := d.first + i) (c := d.cap) (by omega)
+  have hfm : d.first % d.cap = d.first := Nat.mod_eq_of_lt hf
+  have hlm : d.last % d.cap = d.last := Nat.mod_eq_of_lt hll
+  by_cases c1 : i = 0
+  · obtain ⟨g1, g2⟩ := deque_remove_first_agrees d outNN m sid bid hI
+    subst c1
+    have hb : d.first < d.buf.length := by omega
+    simp [c0, hc, hwa, mask_mod1 d hI, hfm, hb, g1, Deque.rd]
+  by_cases c2 : i = d.cap - 1
+  · obtain ⟨g1, g2⟩ := deque_remove_last_agrees d outNN m sid bid hI
+    have hb : (d.first + i) % d.cap < d.buf.length := by omega
+    have c2' : (i = d.cap - 1) = True := eq_true c2
+    simp [c0, c1, c2', hc, hwa, mask_mod1 d hI, hb, g1, Deque.rd]
+  have c2' : (i = d.cap - 1) = False := eq_false c2
+  have hs2 : 2 ≤ d.size := by omega
+  have hfh := Deque.frontHalf_of_two_le (index := i) hs2
+  have hws : GenF.wsub (d.size / 2) 1 = d.size / 2 - 1 := wsub_le _ _ (by omega)
+  have hsz1 : GenF.wsub d.size 1 = d.size - 1 := wsub_le _ _ (by omega)
+  have hb : (d.first + i) % d.cap < d.buf.length := by omega
+  generalize hpdef : (d.first + i) % d.cap = p at *
+  have e1 : GenF.wsub (d.cap - 1) d.first = d.cap - 1 - d.first := wsub_le _ _ (by omega)
+  have e2 : GenF.wadd d.first 1 = d.first + 1 := wadd_small _ _ (by simp only [Gen.MAX_POW_TWO]; omega)
+  have e3 := wmul8 (d.cap - 1 - d.first) (by simp only [Gen.MAX_POW_TWO]; omega)
+  have e4 := wmul8 p (by simp only [Gen.MAX_POW_TWO]; omega)
+  have e5 := wmul8 i (by simp only [Gen.MAX_POW_TWO]; omega)
+  have e6 : GenF.wsub (d.cap - 1) p = d.cap - 1 - p := wsub_le _ _ (by omega)
+  have e7 : GenF.wadd p 1 = p + 1 := wadd_small _ _ (by simp only [Gen.MAX_POW_TWO]; omega)
+  have e8 := wmul8 (d.cap - 1 - p) (by simp only [Gen.MAX_POW_TWO]; omega)
+  have e9 := wmul8 (d.last - 1) (by simp only [Gen.MAX_POW_TWO]; omega)
+  have e10 := wmul8 (d.last - p) (by simp only [Gen.MAX_POW_TWO]; omega)
+  have hm1 := mask_dec1 d hI d.last (by omega)
+  have hm2 := mod_dec d hI d.last (by omega)
+  have hm3 : d.last > 1 → (d.last - 1) % d.cap = decMask d.last d.cap := by
+    intro hh; unfold decMask; rw [if_neg (by omega)]
+  have b0 : d.cap - 1 < d.buf.length := by omega
+  have b1 : d.first + 1 + (d.cap - 1 - d.first) ≤ d.buf.length := by omega
+  have b2 : d.first + (d.cap - 1 - d.first) ≤ d.buf.length := by omega
+  have b3 : 1 + p ≤ d.buf.length := by omega
+  have b4 : p ≤ d.buf.length := by omega
+  have b5 : 0 < d.buf.length := by omega
+  have b8 : p + (d.cap - 1 - p) ≤ d.buf.length := by omega
+  have b9 : p + 1 + (d.cap - 1 - p) ≤ d.buf.length := by omega
+  have b10 : d.last - 1 ≤ d.buf.length := by omega
+  have b11 : 1 + (d.last - 1) ≤ d.buf.length := by omega
+  by_cases cf : i ≤ d.size / 2 - 1
+  · have hfh' : Deque.frontHalf i d.size = true := by rw [hfh]; simp; omega
+    by_cases cw : p < d.first
+    · by_cases k1 : d.first = d.cap - 1
+      · have k1' := eq_true k1
+        by_cases k2 : p = 0
+        · have k2' := eq_true k2
+          cases outNN <;> simp [c0, c1, c2', hc, hwa, mask_mod1 d hI, hfm, hlm, hpdef, hws, hsz1, e1, e2, e3, e4, e5, e6, e7, e8, e9, e10, hm1, hm2, hm3, hb, b0, b1, b2, b3, b4, b5, b8, b9, b10, b11, codes, Deque.rd, Deque.wr, Deque.mv, ofDeque, hfh', cf, cw, k1', k2', Deque.rmFrontWrap]
+        · have k2' := eq_false k2
+          cases outNN <;> simp [c0, c1, c2', hc, hwa, mask_mod1 d hI, hfm, hlm, hpdef, hws, hsz1, e1, e2, e3, e4, e5, e6, e7, e8, e9, e10, hm1, hm2, hm3, hb, b0, b1, b2, b3, b4, b5, b8, b9, b10, b11, codes, Deque.rd, Deque.wr, Deque.mv, ofDeque, hfh', cf, cw, k1', k2', Deque.rmFrontWrap]
+      · have k1' := eq_false k1
+        by_cases k2 : p = 0
+        · have k2' := eq_true k2
+          cases outNN <;> simp [c0, c1, c2', hc, hwa, mask_mod1 d hI, hfm, hlm, hpdef, hws, hsz1, e1, e2, e3, e4, e5, e6, e7, e8, e9, e10, hm1, hm2, hm3, hb, b0, b1, b2, b3, b4, b5, b8, b9, b10, b11, codes, Deque.rd, Deque.wr, Deque.mv, ofDeque, hfh', cf, cw, k1', k2', Deque.rmFrontWrap]
+        · have k2' := eq_false k2
+          cases outNN <;> simp [c0, c1, c2', hc, hwa, mask_mod1 d hI, hfm, hlm, hpdef, hws, hsz1, e1, e2, e3, e4, e5, e6, e7, e8, e9, e10, hm1, hm2, hm3, hb, b0, b1, b2, b3, b4, b5, b8, b9, b10, b11, codes, Deque.rd, Deque.wr, Deque.mv, ofDeque, hfh', cf, cw, k1', k2', Deque.rmFrontWrap]
+    · have b6 : d.first + 1 + i ≤ d.buf.length := by omega
+      have b7 : d.first + i ≤ d.buf.length := by omega
+      cases outNN <;> simp [c0, c1, c2', hc, hwa, mask_mod1 d hI, hfm, hlm, hpdef, hws, hsz1, e1, e2, e3, e4, e5, e6, e7, e8, e9, e10, hm1, hm2, hm3, hb, b0, b1, b2, b3, b4, b5, b8, b9, b10, b11, codes, Deque.rd, Deque.wr, Deque.mv, ofDeque, hfh', cf, cw, b6, b7, Deque.rmFrontContig]
+  · have hfh' : Deque.frontHalf i d.size = false := by rw [hfh]; simp; omega
+    by_cases cw : p > d.last
+    · by_cases k1 : p = d.cap - 1
+      · have k1' := eq_true k1
+        by_cases k2 : d.last > 1
+        · have k2' := eq_true k2
+          have hl1 : d.last > 1 → GenF.wsub d.last 1 = d.last - 1 := fun hh => wsub_le _ _ (by omega)
+          cases outNN <;> simp [c0, c1, c2', hc, hwa, mask_mod1 d hI, hfm, hlm, hpdef, hws, hsz1, e1, e2, e3, e4, e5, e6, e7, e8, e9, e10, hm1, hm2, hm3, hb, b0, b1, b2, b3, b4, b5, b8, b9, b10, b11, codes, Deque.rd, Deque.wr, Deque.mv, ofDeque, hfh', cf, cw, k1', k2', hl1, Deque.rmBackWrap]
+        · have k2' := eq_false k2
+          have hl1 : d.last > 1 → GenF.wsub d.last 1 = d.last - 1 := fun hh => wsub_le _ _ (by omega)
+          cases outNN <;> simp [c0, c1, c2', hc, hwa, mask_mod1 d hI, hfm, hlm, hpdef, hws, hsz1, e1, e2, e3, e4, e5, e6, e7, e8, e9, e10, hm1, hm2, hm3, hb, b0, b1, b2, b3, b4, b5, b8, b9, b10, b11, codes, Deque.rd, Deque.wr, Deque.mv, ofDeque, hfh', cf, cw, k1', k2', hl1, Deque.rmBackWrap]
+      · have k1' := eq_false k1
+        by_cases k2 : d.last > 1
+        · have k2' := eq_true k2
+          have hl1 : d.last > 1 → GenF.wsub d.last 1 = d.last - 1 := fun hh => wsub_le _ _ (by omega)
+          cases outNN <;> simp [c0, c1, c2', hc, hwa, mask_mod1 d hI, hfm, hlm, hpdef, hws, hsz1, e1, e2, e3, e4, e5, e6, e7, e8, e9, e10, hm1, hm2, hm3, hb, b0, b1, b2, b3, b4, b5, b8, b9, b10, b11, codes, Deque.rd, Deque.wr, Deque.mv, ofDeque, hfh', cf, cw, k1', k2', hl1, Deque.rmBackWrap]
+        · have k2' := eq_false k2
+          have hl1 : d.last > 1 → GenF.wsub d.last 1 = d.last - 1 := fun hh => wsub_le _ _ (by omega)
+          cases outNN <;> simp [c0, c1, c2', hc, hwa, mask_mod1 d hI, hfm, hlm, hpdef, hws, hsz1, e1, e2, e3, e4, e5, e6, e7, e8, e9, e10, hm1, hm2, hm3, hb, b0, b1, b2, b3, b4, b5, b8, b9, b10, b11, codes, Deque.rd, Deque.wr, Deque.mv, ofDeque, hfh', cf, cw, k1', k2', hl1, Deque.rmBackWrap]
+    · have hlp : GenF.wsub d.last p = d.last - p := wsub_le _ _ (by omega)
+      have b12 : p + (d.last - p) ≤ d.buf.length := by omega
+      have b13 : p + 1 + (d.last - p) ≤ d.buf.length := by omega
+      cases outNN <;> simp [c0, c1, c2', hc, hwa, mask_mod1 d hI, hfm, hlm, hpdef, hws, hsz1, e1, e2, e3, e4, e5, e6, e7, e8, e9, e10, hm1, hm2, hm3, hb, b0, b1, b2, b3, b4, b5, b8, b9, b10, b11, codes, Deque.rd, Deque.wr, Deque.mv, ofDeque, hfh', cf, cw, hlp, b12, b13, Deque.rmBackContig]
+
+/-! ## `add_at` -/
+
+set_option maxHeartbeats 2000000 in
+/-- the part of `cc_deque_add_at` behind the range test and the growth test (`cc_deque_add_at_k1`), on a deque with
+room, for every index (the front-half branch is finding D3 — the model transcribes the C text, so the agreement
+holds there too) and every set of released blocks that does not contain the deque's two blocks -/
+theorem deque_add_at_tail (d : Deque) (x i : Nat) (m : Mem) (nid sid bid : Nat) (dead : List Nat) (fuel : Nat) (h : d.Inv)
+    (hlt : d.size < d.cap) (hi : i < d.size) (hsb : sid ≠ bid) (hbn : bid ≠ nid)
+    (hl1 : GenF.isDead dead sid = false) (hl2 : GenF.isDead dead bid = false) :
+    GenF.cc_deque_add_at_k1 (ofDeque d sid bid) x i m nid dead fuel false =
+      ((d.addAtCore x i m).1.code, ofDeque (d.addAtCore x i m).2.1 sid bid, (d.addAtCore x i m).2.2, nid, dead,
+       false) := by
+  have hI := h
+  have hp := Deque.Inv.cap_pos h
+  have hll := Deque.Inv.last_lt h
+  obtain ⟨hpw, hmax, hl, hf, hla, hsz⟩ := h
+  have h31 : d.cap ≤ 2147483648 := by simpa [Gen.MAX_POW_TWO] using hmax
+  unfold GenF.cc_deque_add_at_k1 Deque.addAtCore
+  have hc : GenF.wsub d.cap 1 = d.cap - 1 := wsub_le _ _ hp
+  have hwa : GenF.wadd d.first i = d.first + i := wadd_small _ _ (by simp only [Gen.MAX_POW_TWO]; omega)
+  have hpl : (d.first + i) % d.cap < d.cap := Nat.mod_lt _ hp
+  have c5 := mod_cases (x := d.first + i) (c := d.cap) (by omega)
+  have c6 := mod_cases (x := d.first + d.size) (c := d.cap) (by omega)
+  have hfm : d.first % d.cap = d.first := Nat.mod_eq_of_lt hf
+  have hlm : d.last % d.cap = d.last := Nat.mod_eq_of_lt hll
+  have hnge : ¬ d.size ≥ d.cap := by omega
+  have hne : ¬ d.cap = d.size := by omega
+  by_cases c1 : i = 0
+  · have g := deque_add_first_agrees d x m sid bid nid fuel hI hsb hbn
+    simp only [hnge, false_and, if_false] at g
+    have c1' := eq_true c1
+    simp [c1', g, hl1]
+  by_cases c2 : i = d.cap - 1
+  · have g := deque_add_last_agrees d x m sid bid nid fuel hI hsb hbn
+    simp only [hne, false_and, if_false] at g
+    have c2' : (i = d.cap - 1) = True := eq_true c2
+    simp [c1, c2', hc, g, hl1]
+  have c2' : (i = d.cap - 1) = False := eq_false c2
+  have hs2 : 2 ≤ d.size := by omega
+  have hfh := Deque.frontHalf_of_two_le (index := i) hs2
+  have hws : GenF.wsub (d.size / 2) 1 = d.size / 2 - 1 := wsub_le _ _ (by omega)
+  have hb : (d.first + i) % d.cap < d.buf.length := by omega
+  generalize hpdef : (d.first + i) % d.cap = p at *
+  have e1 : GenF.wsub (d.cap - 1) d.first = d.cap - 1 - d.first := wsub_le _ _ (by omega)
+  have e4 := wmul8 p (by simp only [Gen.MAX_POW_TWO]; omega)
+  have e5 := wmul8 i (by simp only [Gen.MAX_POW_TWO]; omega)
+  have e6 : GenF.wsub (d.cap - 1) p = d.cap - 1 - p := wsub_le _ _ (by omega)
+  have e7 : GenF.wadd p 1 = p + 1 := wadd_small _ _ (by simp only [Gen.MAX_POW_TWO]; omega)
+  have e8 := wmul8 (d.cap - 1 - p) (by simp only [Gen.MAX_POW_TWO]; omega)
+  have e11 : GenF.wadd (d.cap - 1 - d.first) 1 = d.cap - 1 - d.first + 1 :=
+    wadd_small _ _ (by simp only [Gen.MAX_POW_TWO]; omega)
+  have e12 := wmul8 (d.cap - 1 - d.first + 1) (by simp only [Gen.MAX_POW_TWO]; omega)
+  have e13 := wmul8 0 (by simp only [Gen.MAX_POW_TWO]; omega)
+  have e14 := wmul8 d.last (by simp only [Gen.MAX_POW_TWO]; omega)
+  have e15 : GenF.wsub d.size i = d.size - i := wsub_le _ _ (by omega)
+  have e16 := wmul8 (d.size - i) (by simp only [Gen.MAX_POW_TWO]; omega)
+  have e17 : GenF.wadd d.last 1 = d.last + 1 := wadd_small _ _ (by simp only [Gen.MAX_POW_TWO]; omega)
+  have e18 : GenF.wadd d.size 1 = d.size + 1 := wadd_small _ _ (by simp only [Gen.MAX_POW_TWO]; omega)
+  have hm1 := mask_dec1 d hI d.first (by omega)
+  have hm2 := mod_dec d hI d.first (by omega)
+  have hm3 : d.first ≠ 0 → (d.first - 1) % d.cap = decMask d.first d.cap := by
+    intro hh; unfold decMask; rw [if_neg hh]
+  have b0 : d.cap - 1 < d.buf.length := by omega
+  have b3 : 1 + p ≤ d.buf.length := by omega
+  have b4 : p ≤ d.buf.length := by omega
+  have b5 : 0 < d.buf.length := by omega
+  have b8 : p + (d.cap - 1 - p) ≤ d.buf.length := by omega
+  have b9 : p + 1 + (d.cap - 1 - p) ≤ d.buf.length := by omega
+  have b15 : d.first + (d.cap - 1 - d.first + 1) ≤ d.buf.length := by omega
+  have b17 : 1 + d.last ≤ d.buf.length := by omega
+  have b18 : d.last ≤ d.buf.length := by omega
+  by_cases cf : i ≤ d.size / 2 - 1
+  · have hfh' : Deque.frontHalf i d.size = true := by rw [hfh]; simp; omega
+    by_cases k1 : d.first = 0
+    · have k1' := eq_true k1
+      by_cases k2 : p = 0
+      · have k2' := eq_true k2
+        have e19 : d.first ≠ 0 → GenF.wsub d.first 1 = d.first - 1 := fun hh => wsub_le _ _ (by omega)
+        have b14 : d.first - 1 + (d.cap - 1 - d.first + 1) ≤ d.buf.length := by omega
+        simp [c1, c2', hc, hwa, mask_mod1 d hI, hfm, hlm, hpdef, hws, e1, e4, e5, e6, e7, e8, e11, e12, e13, e14, e15, e16, e17, e18, hm1, hm2, hm3, hb, b0, b3, b4, b5, b8, b9, b15, b17, b18, hl1, hl2, codes, Deque.rd, Deque.wr, Deque.mv, ofDeque, hfh', cf, k1', k2', b14, e19, Deque.adFrontWrap]
+      · have k2' := eq_false k2
+        have e19 : d.first ≠ 0 → GenF.wsub d.first 1 = d.first - 1 := fun hh => wsub_le _ _ (by omega)
+        have b14 : d.first - 1 + (d.cap - 1 - d.first + 1) ≤ d.buf.length := by omega
+        simp [c1, c2', hc, hwa, mask_mod1 d hI, hfm, hlm, hpdef, hws, e1, e4, e5, e6, e7, e8, e11, e12, e13, e14, e15, e16, e17, e18, hm1, hm2, hm3, hb, b0, b3, b4, b5, b8, b9, b15, b17, b18, hl1, hl2, codes, Deque.rd, Deque.wr, Deque.mv, ofDeque, hfh', cf, k1', k2', b14, e19, Deque.adFrontWrap]
+    · have k1' := eq_false k1
+      by_cases cw : p < d.first
+      · by_cases k2 : p = 0
+        · have k2' := eq_true k2
+          have e19 : d.first ≠ 0 → GenF.wsub d.first 1 = d.first - 1 := fun hh => wsub_le _ _ (by omega)
+          have b14 : d.first - 1 + (d.cap - 1 - d.first + 1) ≤ d.buf.length := by omega
+          simp [c1, c2', hc, hwa, mask_mod1 d hI, hfm, hlm, hpdef, hws, e1, e4, e5, e6, e7, e8, e11, e12, e13, e14, e15, e16, e17, e18, hm1, hm2, hm3, hb, b0, b3, b4, b5, b8, b9, b15, b17, b18, hl1, hl2, codes, Deque.rd, Deque.wr, Deque.mv, ofDeque, hfh', cf, k1', k2', cw, b14, e19, Deque.adFrontWrap]
+        · have k2' := eq_false k2
+          have e19 : d.first ≠ 0 → GenF.wsub d.first 1 = d.first - 1 := fun hh => wsub_le _ _ (by omega)
+          have b14 : d.first - 1 + (d.cap - 1 - d.first + 1) ≤ d.buf.length := by omega
+          simp [c1, c2', hc, hwa, mask_mod1 d hI, hfm, hlm, hpdef, hws, e1, e4, e5, e6, e7, e8, e11, e12, e13, e14, e15, e16, e17, e18, hm1, hm2, hm3, hb, b0, b3, b4, b5, b8, b9, b15, b17, b18, hl1, hl2, codes, Deque.rd, Deque.wr, Deque.mv, ofDeque, hfh', cf, k1', k2', cw, b14, e19, Deque.adFrontWrap]
+      · have e19 : GenF.wsub d.first 1 = d.first - 1 := wsub_le _ _ (by omega)
+        have b16 : d.first - 1 + i ≤ d.buf.length := by omega
+        have b7 : d.first + i ≤ d.buf.length := by omega
+        simp [c1, c2', hc, hwa, mask_mod1 d hI, hfm, hlm, hpdef, hws, e1, e4, e5, e6, e7, e8, e11, e12, e13, e14, e15, e16, e17, e18, hm1, hm2, hm3, hb, b0, b3, b4, b5, b8, b9, b15, b17, b18, hl1, hl2, codes, Deque.rd, Deque.wr, Deque.mv, ofDeque, hfh', cf, cw, k1', e19, b16, b7, Deque.adFrontContig]
+  · have hfh' : Deque.frontHalf i d.size = false := by rw [hfh]; simp; omega
+    by_cases cw : p > d.last
+    · by_cases k1 : p = d.cap - 1
+      · have k1' := eq_true k1
+        by_cases k2 : d.last = d.cap - 1
+        · have k2' := eq_true k2
+          simp [c1, c2', hc, hwa, mask_mod1 d hI, hfm, hlm, hpdef, hws, e1, e4, e5, e6, e7, e8, e11, e12, e13, e14, e15, e16, e17, e18, hm1, hm2, hm3, hb, b0, b3, b4, b5, b8, b9, b15, b17, b18, hl1, hl2, codes, Deque.rd, Deque.wr, Deque.mv, ofDeque, hfh', cf, cw, k1', k2', Deque.adBackWrap]
+        · have k2' := eq_false k2
+          simp [c1, c2', hc, hwa, mask_mod1 d hI, hfm, hlm, hpdef, hws, e1, e4, e5, e6, e7, e8, e11, e12, e13, e14, e15, e16, e17, e18, hm1, hm2, hm3, hb, b0, b3, b4, b5, b8, b9, b15, b17, b18, hl1, hl2, codes, Deque.rd, Deque.wr, Deque.mv, ofDeque, hfh', cf, cw, k1', k2', Deque.adBackWrap]
+      · have k1' := eq_false k1
+        by_cases k2 : d.last = d.cap - 1
+        · have k2' := eq_true k2
+          simp [c1, c2', hc, hwa, mask_mod1 d hI, hfm, hlm, hpdef, hws, e1, e4, e5, e6, e7, e8, e11, e12, e13, e14, e15, e16, e17, e18, hm1, hm2, hm3, hb, b0, b3, b4, b5, b8, b9, b15, b17, b18, hl1, hl2, codes, Deque.rd, Deque.wr, Deque.mv, ofDeque, hfh', cf, cw, k1', k2', Deque.adBackWrap]
+        · have k2' := eq_false k2
+          simp [c1, c2', hc, hwa, mask_mod1 d hI, hfm, hlm, hpdef, hws, e1, e4, e5, e6, e7, e8, e11, e12, e13, e14, e15, e16, e17, e18, hm1, hm2, hm3, hb, b0, b3, b4, b5, b8, b9, b15, b17, b18, hl1, hl2, codes, Deque.rd, Deque.wr, Deque.mv, ofDeque, hfh', cf, cw, k1', k2', Deque.adBackWrap]
+    · have b19 : p + 1 + (d.size - i) ≤ d.buf.length := by omega
+      have b20 : p + (d.size - i) ≤ d.buf.length := by omega
+      simp [c1, c2', hc, hwa, mask_mod1 d hI, hfm, hlm, hpdef, hws, e1, e4, e5, e6, e7, e8, e11, e12, e13, e14, e15, e16, e17, e18, hm1, hm2, hm3, hb, b0, b3, b4, b5, b8, b9, b15, b17, b18, hl1, hl2, codes, Deque.rd, Deque.wr, Deque.mv, ofDeque, hfh', cf, cw, b19, b20, Deque.adBackContig]
+
+/-- `cc_deque_add_at` (range test and growth included), for every index: status code, state, ledger, block ids;
+fault-free, for any fuel -/
+theorem deque_add_at_agrees (d : Deque) (x i : Nat) (m : Mem) (sid bid nid fuel : Nat)
+    (h : d.Inv) (hsb : sid ≠ bid) (hbn : bid ≠ nid) (hsn : sid ≠ nid) :
+    GenF.cc_deque_add_at (ofDeque d sid bid) x i m nid fuel =
+      ((d.addAt x i m).1.code,
+       ofDeque (d.addAt x i m).2.1 sid (if i < d.size ∧ d.cap = d.size ∧ (d.expandCapacity m).1 = .ok then nid else bid),
+       (d.addAt x i m).2.2,
+       (if i < d.size ∧ d.cap = d.size ∧ (d.expandCapacity m).1 = .ok then nid + 1 else nid),
+       (if i < d.size ∧ d.cap = d.size ∧ (d.expandCapacity m).1 = .ok then [bid] else []), false) := by
+  unfold Deque.addAt GenF.cc_deque_add_at
+  by_cases hr : i ≥ d.size
+  · have hd0 : decide (i ≥ (ofDeque d sid bid).size) = true := by
+      change decide (i ≥ d.size) = true
+      simpa using hr
+    have hr' : ¬ i < d.size := by omega
+    dsimp only
+    rw [hd0]
+    simp [hr, hr', codes]
+  have hd0 : decide (i ≥ (ofDeque d sid bid).size) = false := by
+    change decide (i ≥ d.size) = false
+    simpa using hr
+  have hr' : i < d.size := by omega
+  dsimp only
+  rw [hd0]
+  simp only [hr, hr', if_false, true_and, Bool.false_eq_true]
+  by_cases hfull : d.cap = d.size
+  · have hd : decide ((ofDeque d sid bid).capacity = (ofDeque d sid bid).size) = true := by
+      change decide (d.cap = d.size) = true
+      simpa using hfull
+    rw [hd]
+    simp only [hfull, if_true, true_and]
+    rw [deque_expand_agrees d m sid bid nid fuel h hsb]
+    dsimp only
+    by_cases hok : (d.expandCapacity m).1 = .ok
+    · obtain ⟨e1, _, e3, e4, _⟩ := Deque.expandCapacity_ok d m h hok
+      have hp := Deque.Inv.cap_pos h
+      simp only [hok, if_true, codes, ne_eq, not_true_eq_false, decide_false, if_false, Bool.false_eq_true,
+        bne_self_eq_false, Bool.false_or, List.append_nil]
+      exact deque_add_at_tail (d.expandCapacity m).2.1 x i (d.expandCapacity m).2.2 (nid + 1) sid nid [bid] fuel e1
+        (by omega) (by omega) hsn (by omega)
+        (by simp [GenF.isDead, hsb]) (by simp [GenF.isDead]; exact fun e => hbn e.symm)
+    · have hne := code_ne_zero _ hok
+      simp [hok, hne, codes]
+  · have hd : decide ((ofDeque d sid bid).capacity = (ofDeque d sid bid).size) = false := by
+      change decide (d.cap = d.size) = false
+      simpa using hfull
+    rw [hd]
+    simp only [hfull, if_false, false_and, Bool.false_eq_true]
+    have hsz := h.2.2.2.2.2
+    exact deque_add_at_tail d x i m nid sid bid [] fuel h (by omega) hr' hsb hbn (by simp [GenF.isDead]) (by simp [GenF.isDead])
+
 /-- non-vacuity: a wrapped three-element deque (`7, 8, 9` from slot 3 of 4) satisfies the invariant; the translated
 reads, `add_first` (mask wrap-around) and `add_last` on the full deque (growth: the two `memcpy`s unwrap the
 content into a fresh block with id 3, the old block 2 is released) compute the expected values without a fault,
@@ -461,6 +751,12 @@ example :
     (GenF.cc_deque_add_last (ofDeque e 1 2) 5 {} 3 0).2.1.buffer_id = 3 ∧
     (GenF.cc_deque_add_last (ofDeque e 1 2) 5 {} 3 0).2.2.2.2 = ([2], false) ∧
     (GenF.cc_deque_remove_last (ofDeque d) true).2.1 = some 9 ∧
+    (GenF.cc_deque_remove_at (ofDeque d) 1 true).2.1 = some 8 ∧
+    (GenF.cc_deque_remove_at (ofDeque d) 1 true).2.2.1.buffer = [9, 0, 0, 7] ∧
+    (GenF.cc_deque_remove_at (ofDeque d) 1 true).2.2.2 = false ∧
+    (GenF.cc_deque_add_at (ofDeque d 1 2) 5 2 {} 3 0).2.1.buffer = [8, 5, 9, 7] ∧
+    (GenF.cc_deque_add_at (ofDeque d 1 2) 5 2 {} 3 0).2.2.2.2.2 = false ∧
+    (GenF.cc_deque_add_at (ofDeque d 1 2) 5 7 {} 3 0).1 = 8 ∧
     GenF.cc_deque_s__upper_pow_two 5 = 8 ∧ GenF.cc_deque_s__upper_pow_two 0 = 1 ∧
     GenF.cc_deque_s__upper_pow_two 4294967296 = 2147483648 ∧
     (GenF.cc_deque_destroy (ofDeque d 1 2) {}).2.2 = false ∧ (GenF.cc_deque_destroy (ofDeque d 1 1) {}).2.2 = true := by
